@@ -232,7 +232,7 @@ Proof.
   unfold holds_on. rewrite Hpanic, andb_true_r. apply andb_true_iff. split.
   - destruct (o_accept c) eqn:Ea; [|reflexivity].
     apply forallb_forall. intros [v o] Hin. cbn [fst snd].
-    rewrite forallb_forall in Hvals. specialize (Hvals _ Hin). cbn [fst snd] in Hvals.
+    rewrite Hacc in Hvals. rewrite forallb_forall in Hvals. specialize (Hvals _ Hin). cbn [fst snd] in Hvals.
     destruct (wf (c_ty c) v) eqn:Ew; [|reflexivity]. cbn [negb orb].
     rewrite (sound_on_plain (c_state c) (c_ty c) Hacc Hp v Ew) in Hvals.
     apply ov_eqb_some_eq in Hvals. subst. cbn. apply value_eqb_refl.
